@@ -384,5 +384,7 @@ def validate_code_authorization_request(grant):
         grant.execute_hook("after_validate_authorization_request")
     except OAuth2Error as error:
         error.redirect_uri = redirect_uri
+        if error.state is None:
+            error.state = request.state
         raise error
     return redirect_uri
